@@ -296,6 +296,8 @@ pub struct EffFault {
     /// a verifier share replaced wholesale by the one the same sender produced for another report:
     /// (sender, round, source report)
     pub transplant: Option<(u8, u8, u32)>,
+    /// verifier-share loss / injection on the way to the combiner: (0 = a share dropped, 1 = an extra share injected; round)
+    pub subst: Option<(u8, u8)>,
 }
 
 #[derive(Clone, Debug)]
@@ -666,13 +668,13 @@ impl<'p, 'c, 'cc, V: SimVdaf<VK>, A: Adapter<V>, const VK: usize> World<'p, 'c, 
                 Act::Drop => {
                     dropped = true;
                     self.ctx.fault("drop");
-                    self.effective.push(EffFault { idx: i, rep: env.rep, ap: ap_opt, exempt: false, desc: format!("drop {:?} {}->{}", env.kind, env.from, env.to), site: None, transplant: None });
+                    self.effective.push(EffFault { idx: i, rep: env.rep, ap: ap_opt, exempt: false, desc: format!("drop {:?} {}->{}", env.kind, env.from, env.to), site: None, transplant: None, subst: if env.kind == EnvKind::VShare { Some((0, env.round)) } else { None } });
                 }
                 Act::Dup => {
                     dup = true;
                     self.ctx.fault("duplicate");
                     if env.kind == EnvKind::VShare {
-                        self.effective.push(EffFault { idx: i, rep: env.rep, ap: ap_opt, exempt: false, desc: format!("extra verifier share from {}", env.from), site: None, transplant: None });
+                        self.effective.push(EffFault { idx: i, rep: env.rep, ap: ap_opt, exempt: false, desc: format!("extra verifier share from {}", env.from), site: None, transplant: None, subst: Some((1, env.round)) });
                     }
                 }
                 Act::DupZero => {
@@ -680,7 +682,7 @@ impl<'p, 'c, 'cc, V: SimVdaf<VK>, A: Adapter<V>, const VK: usize> World<'p, 'c, 
                         dup = true;
                         dup_zero = true;
                         self.ctx.fault("extra_zero_share");
-                        self.effective.push(EffFault { idx: i, rep: env.rep, ap: ap_opt, exempt: false, desc: format!("extra all-zero verifier share attributed to {}", env.from), site: None, transplant: None });
+                        self.effective.push(EffFault { idx: i, rep: env.rep, ap: ap_opt, exempt: false, desc: format!("extra all-zero verifier share attributed to {}", env.from), site: None, transplant: None, subst: Some((1, env.round)) });
                     }
                 }
                 Act::Mutate { part, m } => {
@@ -716,7 +718,7 @@ impl<'p, 'c, 'cc, V: SimVdaf<VK>, A: Adapter<V>, const VK: usize> World<'p, 'c, 
                         let roff = reg.map(|r| r.off).unwrap_or(0);
                         self.ctx.counters.inc(&format!("alter.{:?}.{}", kind, rname));
                         let site = Site { kind, region: rname, rel: (s - roff, e - roff), agg, round: env.round, len_change: matches!(m, Mutation::Trunc { .. } | Mutation::Extend { .. }), at_source: false };
-                        self.effective.push(EffFault { idx: i, rep: env.rep, ap: ap_opt, exempt, desc: format!("{:?} of {:?}[{}..{}] ({}) on link {}->{}", m, kind, s, e, rname, env.from, env.to), site: Some(site), transplant: None });
+                        self.effective.push(EffFault { idx: i, rep: env.rep, ap: ap_opt, exempt, desc: format!("{:?} of {:?}[{}..{}] ({}) on link {}->{}", m, kind, s, e, rname, env.from, env.to), site: Some(site), transplant: None, subst: None });
                     } else {
                         self.ctx.counters.inc("fault.noop");
                     }
@@ -727,7 +729,7 @@ impl<'p, 'c, 'cc, V: SimVdaf<VK>, A: Adapter<V>, const VK: usize> World<'p, 'c, 
                         if src.parts != env.parts {
                             env.parts = src.parts;
                             self.ctx.fault("splice");
-                            self.effective.push(EffFault { idx: i, rep: env.rep, ap: ap_opt, exempt: false, desc: format!("payload of report {rep2} spliced into {:?} {}->{}", env.kind, env.from, env.to), site: None, transplant: if env.kind == EnvKind::VShare { Some((env.from, env.round, *rep2)) } else { None } });
+                            self.effective.push(EffFault { idx: i, rep: env.rep, ap: ap_opt, exempt: false, desc: format!("payload of report {rep2} spliced into {:?} {}->{}", env.kind, env.from, env.to), site: None, transplant: if env.kind == EnvKind::VShare { Some((env.from, env.round, *rep2)) } else { None }, subst: None });
                         }
                     } else {
                         self.ctx.counters.inc("fault.noop");
@@ -797,7 +799,7 @@ impl<'p, 'c, 'cc, V: SimVdaf<VK>, A: Adapter<V>, const VK: usize> World<'p, 'c, 
                                     self.ctx.fault("corrupt.at_source");
                                     let reg = regions.iter().find(|r| s >= r.off && s < r.off + r.len);
                                     let site = Site { kind: Kind::Public, region: reg.map(|r| r.name).unwrap_or("?"), rel: (s - reg.map(|r| r.off).unwrap_or(0), e - reg.map(|r| r.off).unwrap_or(0)), agg: 0, round: 0, len_change: matches!(m, Mutation::Trunc { .. } | Mutation::Extend { .. }), at_source: true };
-                                    self.effective.push(EffFault { idx: i, rep: ri as u32, ap: None, exempt: false, desc: format!("{:?} of public share [{s}..{e}] at source", m), site: Some(site), transplant: None });
+                                    self.effective.push(EffFault { idx: i, rep: ri as u32, ap: None, exempt: false, desc: format!("{:?} of public share [{s}..{e}] at source", m), site: Some(site), transplant: None, subst: None });
                                 } else {
                                     self.ctx.counters.inc("fault.noop");
                                 }
@@ -1009,7 +1011,7 @@ impl<'p, 'c, 'cc, V: SimVdaf<VK>, A: Adapter<V>, const VK: usize> World<'p, 'c, 
                                 self.ctx.fault("corrupt.vmsg_at_source");
                                 let reg = regions.iter().find(|r| s >= r.off && s < r.off + r.len);
                                 let site = Site { kind: Kind::VMsg, region: reg.map(|r| r.name).unwrap_or("?"), rel: (s - reg.map(|r| r.off).unwrap_or(0), e - reg.map(|r| r.off).unwrap_or(0)), agg: 1, round, len_change: matches!(m, Mutation::Trunc { .. } | Mutation::Extend { .. }), at_source: true };
-                                self.effective.push(EffFault { idx: i, rep, ap: Some(ap), exempt: false, desc: format!("{:?} of the verifier message [{s}..{e}] before fan-out", m), site: Some(site), transplant: None });
+                                self.effective.push(EffFault { idx: i, rep, ap: Some(ap), exempt: false, desc: format!("{:?} of the verifier message [{s}..{e}] before fan-out", m), site: Some(site), transplant: None, subst: None });
                             } else {
                                 self.ctx.counters.inc("fault.noop");
                             }
